@@ -1,13 +1,13 @@
 (** C02 — every written file is structurally valid Parquet with a truthful footer.
     Statements only.  Validity is *defined* by the independent validator
     [FileSpec.check_file] (the same function the check applies to the real
-    files).  Proved so far about the writer model ([Writer.v]): the footer's
-    offsets, sizes and row counts agree with the bytes written, for every
-    configuration and every list of batches (PQ.WriterProofs); the page-,
-    chunk- and file-level acceptance by [check_file] is in PQ.PageProofs /
-    PQ.ValidatorProofs and is added below as it lands. *)
+    files).  Proved about the writer model ([Writer.v]): the validator accepts
+    every file it produces and finds in it exactly the batches written
+    (PQ.PageProofs, PQ.SchemaProofs, PQ.ValidatorProofs), and the footer's
+    offsets, sizes and row counts agree with the bytes written
+    (PQ.WriterProofs). *)
 From Coq Require Import List NArith ZArith.
-From PQ Require Import Bytes Schema MetaTypes Writer WriterProofs.
+From PQ Require Import Bytes Schema Dremel DremelProofs MetaTypes Writer WriterProofs FileSpec PageProofs SchemaProofs ValidatorProofs.
 Import ListNotations.
 Local Open Scope N_scope.
 
@@ -44,3 +44,65 @@ Theorem C02_row_counts_truthful : forall compress cfg bs,
   fm_num_rows (footer_meta cfg rgs) = Z.of_nat (length (concat bs)).
 Proof. exact footer_truthful. Qed.
 Print Assumptions C02_row_counts_truthful.
+
+(** The file of every list of well-typed batches is accepted by the independent
+    validator - magic, footer length, footer decoding with nothing left over,
+    schema tree parsed back to the struct shape, one column chunk per leaf in
+    order (path, physical type), offsets = running position, every page's
+    sizes, encodings, level sections (framed hybrid streams, < 8 padding,
+    levels within bounds, first repetition level 0) and value section (exactly
+    the non-null count, no byte left), chunk and row-group totals, no
+    unaccounted byte before the footer, num_rows - and what it finds is what
+    was written: the shape, one row group per batch with its rows, the records
+    themselves (reassembled by the reference assembler), at most [cfg_max]
+    records per page, sound statistics on every page. *)
+Theorem C02_written_file_valid :
+  forall (compress : Z -> bytes -> bytes) (decompress : Z -> bytes -> option bytes),
+  (forall c x, In c [CODEC_UNCOMPRESSED; CODEC_SNAPPY; CODEC_GZIP] -> decompress c (compress c x) = Some x) ->
+  forall cfg bs,
+  (1 <= cfg_max cfg)%nat -> PageProofs.codec_ok (cfg_codec cfg) -> shape_ok (cfg_fields cfg) ->
+  Forall (fun b => Forall (rec_ok (cfg_fields cfg)) b) bs ->
+  sizes_ok compress cfg bs ->
+  exists v,
+    check_file decompress (file_of_batches compress cfg bs) = inr v /\
+    fv_fields v = cfg_fields cfg /\
+    fv_cols v = columns (cfg_fields cfg) /\
+    map rv_rows (fv_rgs v) = map (@nlen value) bs /\
+    map rv_records (fv_rgs v) = bs /\
+    view_records v = concat bs /\
+    all_pages (fun pv => pv_records pv <= N.of_nat (cfg_max cfg) /\ pv_stats_ok pv = true) (fv_rgs v).
+Proof. exact written_file_valid. Qed.
+Print Assumptions C02_written_file_valid.
+
+(** ... and so for every Add/Write history. *)
+Theorem C02_written_history_valid :
+  forall (compress : Z -> bytes -> bytes) (decompress : Z -> bytes -> option bytes),
+  (forall c x, In c [CODEC_UNCOMPRESSED; CODEC_SNAPPY; CODEC_GZIP] -> decompress c (compress c x) = Some x) ->
+  forall cfg h,
+  (1 <= cfg_max cfg)%nat -> PageProofs.codec_ok (cfg_codec cfg) -> shape_ok (cfg_fields cfg) ->
+  Forall (op_ok (cfg_fields cfg)) h ->
+  sizes_ok compress cfg (nonempty_batches h) ->
+  exists v,
+    check_file decompress (file_bytes compress cfg h) = inr v /\
+    fv_fields v = cfg_fields cfg /\
+    map rv_records (fv_rgs v) = nonempty_batches h /\
+    view_records v = concat (nonempty_batches h) /\
+    all_pages (fun pv => pv_records pv <= N.of_nat (cfg_max cfg) /\ pv_stats_ok pv = true) (fv_rgs v).
+Proof. exact written_history_valid. Qed.
+Print Assumptions C02_written_history_valid.
+
+(** The footer schema is a well-formed tree that parses back to exactly the
+    struct shape (sibling names distinct; same-named groups under different
+    parents are fine). *)
+Theorem C02_schema_tree : forall fs,
+  ty_okb (TGroup fs) = true -> names_okb (TGroup fs) = true ->
+  parse_schema (schema_of (columns fs)) = inr fs.
+Proof. exact parse_schema_of. Qed.
+Print Assumptions C02_schema_tree.
+
+(** Non-vacuity: a concrete configuration meets the side conditions and is accepted. *)
+Example C02_example_valid :
+  shape_okb Tiny.fs0 = true /\ sizes_okb Tiny.cmp Tiny.cfg0 [[Tiny.rA; Tiny.rB]] = true /\
+  exists v, check_file Tiny.dcmp (file_of_batches Tiny.cmp Tiny.cfg0 [[Tiny.rA; Tiny.rB]]) = inr v /\
+            view_records v = [Tiny.rA; Tiny.rB] /\ map rv_rows (fv_rgs v) = [2%N].
+Proof. split; [apply Tiny.tiny_sizes_ok | split; [apply Tiny.tiny_sizes_ok | exact Tiny.tiny_file_valid]]. Qed.
